@@ -19,12 +19,15 @@ RULE = ("layer strings: every concatenation of <=k atoms from a 50-atom lexical 
         "an ODataException subclass, identical when repeated. non-trivial = distinct inputs whose outcome is not a plain "
         "ParsingException at the first token.")
 ASSUMPTIONS = ["alpha/beta abstractions keep everything grammar actions can observe (checked by the multi-witness rule)",
-               "a 10 s alarm per input stands for 'terminates'"]
+               "10 s of CPU time per input (ITIMER_VIRTUAL) stands for 'terminates'; the slowest input of the unchanged tree needs 0.6 s (quick) / 4 s (thorough)"]
 
 ATOMS = ["a", "length", "ns.f", "geo.length", "1", "1.5", "'s'", "''", "true", "null", "2020-02-29", "10:30:00",
          "2020-02-29T10:30:00Z", "duration'P1D'", "geography'P'", "123e4567-e89b-12d3-a456-426614174000",
          " add ", " eq ", " and ", " or ", " in ", " mul ", "not ", "-", "any", "all", "(", ")", ",", "/", ":", "=", " ",
          "e", ".", "'", "T", "Z", "+", ":00", "\t", "\n", "é", "$", "\x00", '"', ";", "%", "_", "0"]
+
+
+CPU_LIMIT_S = 10.0
 
 
 class Timeout(BaseException):
@@ -42,13 +45,14 @@ def run_one(text, lx=None, ps=None):
     """-> (class, detail)"""
     lx = lx or _lx
     ps = ps or _ps
-    signal.signal(signal.SIGALRM, _alarm)
-    signal.setitimer(signal.ITIMER_REAL, 10.0)
+    # CPU time of this process, not wall time: a loaded machine must not turn a slow-but-terminating parse into an alarm
+    signal.signal(signal.SIGVTALRM, _alarm)
+    signal.setitimer(signal.ITIMER_VIRTUAL, CPU_LIMIT_S)
     try:
         try:
             r = ps.parse(lx.tokenize(text))
         finally:
-            signal.setitimer(signal.ITIMER_REAL, 0)
+            signal.setitimer(signal.ITIMER_VIRTUAL, 0)
     except Timeout:
         return ("timeout", "")
     except exceptions.ODataException as e:
@@ -338,13 +342,13 @@ def run(ctx):
     units = []
     for name, _ in pump_families():
         for n in sizes:
-            if name in ("path", "path-lambda") and n > (2000 if ctx.quick else 4000):
-                n = 2000 if ctx.quick else 4000   # rebuilding the owner chain is quadratic: ~3 s at 2000 segments
+            if name in ("path", "path-lambda") and n > (1000 if ctx.quick else 3000):
+                n = 1000 if ctx.quick else 3000   # rebuilding the owner chain is quadratic: 0.6 s at 1000 segments, 4 s at 3000
             units.append((name, n))
     units = sorted(set(units), key=lambda u: -u[1])
     ctx.pmap(_pump_unit, units)
     ctx.layer("pump", families=len(pump_families()), sizes=sizes, exhaustive=True,
-              note="path families capped at 2000/4000 segments (quadratic re-rooting), everything else up to 64KB")
+              note="path families capped at 1000/3000 segments (quadratic re-rooting), everything else up to 64KB")
 
     # 5. junk: every BMP code point (quick: seed-selected 1/4 block + ASCII/Latin-1 core)
     if ctx.quick:
